@@ -51,7 +51,7 @@ pub fn make_sut(scn: &Value) -> Arc<dyn Sut> {
 // raw rings
 
 /// per logical thread, the slots it has reserved and not yet published / cancelled
-type Reserved = Mutex<Vec<Vec<(usize /*ptr*/, u32 /*slot_id*/)>>>;
+type Reserved = Mutex<Vec<Vec<(usize /*ptr*/, u32 /*value written*/)>>>;
 
 pub struct RingAtomicSut<const N: usize> {
     q: AtomicMove<u32, N>,
@@ -63,8 +63,29 @@ fn mk_ring_atomic<const N: usize>() -> Arc<dyn Sut> {
 }
 
 impl<const N: usize> Sut for RingAtomicSut<N> {
+    fn resolve(&self, t: usize, op: &Value) -> Value {
+        // ops that refer to "my oldest / newest reservation" are bound to an index here (a no-op if there is none)
+        let name = op["op"].as_str().unwrap_or("");
+        let r = self.reserved.lock().unwrap();
+        let mine = &r[t];
+        match name {
+            "fill_last" if !mine.is_empty() => json!({"op": "fill", "i": mine.len() - 1, "v": op["v"]}),
+            "pub_first" if !mine.is_empty() => json!({"op": "pub_idx", "i": 0, "v": mine[0].1}),
+            "pub_last" if !mine.is_empty() => json!({"op": "pub_idx", "i": mine.len() - 1, "v": mine[mine.len() - 1].1}),
+            "unleak_last" if !mine.is_empty() => json!({"op": "unleak_idx", "i": mine.len() - 1, "v": 0}),
+            "pub_idx" => {
+                let i = op["i"].as_u64().unwrap_or(0) as usize;
+                json!({"op": "pub_idx", "i": i, "v": mine.get(i).map(|x| x.1).unwrap_or(0)})
+            }
+            "enq_if_clear" if mine.is_empty() => json!({"op": "enq", "i": 0, "v": op["v"]}),
+            "fill_last" | "pub_first" | "pub_last" | "unleak_last" | "enq_if_clear" => json!({"op": "nop", "v": 0, "i": 0}),
+            _ => op.clone(),
+        }
+    }
+
     fn exec(&self, ctx: &Ctx, op: &Value) -> Value {
         match op["op"].as_str().unwrap() {
+            "nop" => json!({"ok": true, "v": 0}),
             "enq" => {
                 let v = op["v"].as_u64().unwrap() as u32;
                 let (len, back) = self.q.publish_movable(v);
@@ -76,9 +97,9 @@ impl<const N: usize> Sut for RingAtomicSut<N> {
             },
             "len" => json!({"ok": true, "v": (self.q.available_elements_count() as u64) % crate::sched::LOG_MOD}),
             "reserve" => match self.q.leak_slot_internal(|| false) {
-                Some((slot, slot_id, len_before)) => {
+                Some((slot, _slot_id, len_before)) => {
                     let idx = self.q.slot_index_from_slot_ref(slot);
-                    self.reserved.lock().unwrap()[ctx.t].push((slot as *mut u32 as usize, slot_id));
+                    self.reserved.lock().unwrap()[ctx.t].push((slot as *mut u32 as usize, 0));
                     json!({"ok": true, "v": idx, "lenb": len_before})
                 }
                 None => json!({"ok": false, "v": 0, "lenb": 0}),
@@ -86,7 +107,11 @@ impl<const N: usize> Sut for RingAtomicSut<N> {
             "fill" => {
                 let i = op["i"].as_u64().unwrap() as usize;
                 let v = op["v"].as_u64().unwrap() as u32;
-                let (ptr, _) = self.reserved.lock().unwrap()[ctx.t][i];
+                let ptr = {
+                    let mut r = self.reserved.lock().unwrap();
+                    r[ctx.t][i].1 = v;
+                    r[ctx.t][i].0
+                };
                 unsafe { std::ptr::write(ptr as *mut u32, v) };
                 json!({"ok": true, "v": 0})
             }
@@ -96,7 +121,10 @@ impl<const N: usize> Sut for RingAtomicSut<N> {
                 let (ptr, _) = self.reserved.lock().unwrap()[ctx.t][i];
                 let idx = self.q.slot_index_from_slot_ref(unsafe { &*(ptr as *const u32) });
                 match self.q.try_publish_leaked_internal_index(idx) {
-                    Some(len) => json!({"ok": true, "v": len.get()}),
+                    Some(len) => {
+                        self.reserved.lock().unwrap()[ctx.t].remove(i);
+                        json!({"ok": true, "v": len.get()})
+                    }
                     None => json!({"ok": false, "v": 0}),
                 }
             }
@@ -104,7 +132,11 @@ impl<const N: usize> Sut for RingAtomicSut<N> {
                 let i = op["i"].as_u64().unwrap() as usize;
                 let (ptr, _) = self.reserved.lock().unwrap()[ctx.t][i];
                 let idx = self.q.slot_index_from_slot_ref(unsafe { &*(ptr as *const u32) });
-                json!({"ok": self.q.try_unleak_slot_index_internal(idx), "v": 0})
+                let ok = self.q.try_unleak_slot_index_internal(idx);
+                if ok {
+                    self.reserved.lock().unwrap()[ctx.t].remove(i);
+                }
+                json!({"ok": ok, "v": 0})
             }
             other => panic!("ring_atomic: unknown op {other}"),
         }
@@ -132,8 +164,17 @@ fn mk_ring_fullsync<const N: usize>() -> Arc<dyn Sut> {
 }
 
 impl<const N: usize> Sut for RingFullSyncSut<N> {
+    fn resolve(&self, _t: usize, op: &Value) -> Value {
+        match op["op"].as_str().unwrap_or("") {
+            "enq_if_clear" => json!({"op": "enq", "i": 0, "v": op["v"]}),
+            "fill_last" | "pub_first" | "pub_last" | "unleak_last" | "reserve" => json!({"op": "nop", "v": 0, "i": 0}),
+            _ => op.clone(),
+        }
+    }
+
     fn exec(&self, _ctx: &Ctx, op: &Value) -> Value {
         match op["op"].as_str().unwrap() {
+            "nop" => json!({"ok": true, "v": 0}),
             "enq" => {
                 let v = op["v"].as_u64().unwrap() as u32;
                 let (len, back) = self.q.publish_movable(v);
